@@ -32,4 +32,21 @@ theorem contains_map_ofNat (l : List Nat) (o : Nat) :
         simp only [beq_eq_false_iff_ne, ne_eq, Int.ofNat_eq_natCast, Int.natCast_inj]; exact h
       rw [h1, h2]
 
+/-- (S3) `l[:r]` for a natural `r` -/
+theorem pySlice_take_ofNat {α : Type} (l : List α) (r : Nat) : pySlice l none (some (Int.ofNat r)) = l.take r := by
+  unfold pySlice pyClamp
+  have : ¬ (Int.ofNat r < 0) := by simp
+  simp only [this, if_false, List.drop_zero]
+  show List.take (min r l.length) l = _
+  by_cases h : r ≤ l.length
+  · rw [Nat.min_eq_left h]
+  · rw [Nat.min_eq_right (by omega), List.take_length, List.take_of_length_le (by omega)]
+
+/-- (S3) a loop that only appends its item builds the list of the items -/
+theorem foldl_append_item {α : Type} (f : List α → α → List α) (hf : ∀ st x, f st x = st ++ [x]) (l init : List α) :
+    l.foldl f init = init ++ l := by
+  induction l generalizing init with
+  | nil => simp
+  | cons a as ih => rw [List.foldl_cons, hf, ih]; simp
+
 end SymmModel.Gen
